@@ -1,2 +1,50 @@
-(* C19 statements pinned here *)
-From A1 Require Import Uper.Reader.
+(* C19 — the diagnostic feature flag does not change decoding results.  Statements pinned here.
+   [read_ty_d] (Uper/ReaderD.v) is the reader built with `descriptive-deserialize-errors`: the state carries
+   the log `scope_description` and every cfg-gated statement of src/rw/uper.rs is a push at its program point;
+   [read_ty] (Uper/Reader.v) is the reader of the default build; [erase] drops the log. *)
+From A1 Require Import Uper.Reader Uper.ReaderD Uper.ErasureProofs.
+Local Open Scope N_scope.
+
+(* same Ok value, same error kind, same panic class; the state afterwards (cursor, declared length,
+   scope) is the same, so the same number of bits was consumed *)
+Theorem C19_erasure : forall m t r,
+  match read_ty_d m t r with
+  | Ok (v, r') => read_ty m t (erase r) = Ok (v, erase r')
+  | Err e => read_ty m t (erase r) = Err e
+  | Panic p => read_ty m t (erase r) = Panic p
+  end.
+Proof. exact erasure. Qed.
+
+(* several values read one after the other from one reader: the log accumulated by the earlier reads
+   (it is never cleared on success) does not influence the later ones *)
+Theorem C19_erasure_history : forall m ts r,
+  match read_all_d m ts r with
+  | Ok (vs, r') => read_all m ts (erase r) = Ok (vs, erase r')
+  | Err e => read_all m ts (erase r) = Err e
+  | Panic p => read_all m ts (erase r) = Panic p
+  end.
+Proof. exact erasure_history. Qed.
+
+Example C19_nonvacuous :
+  (* Outer ::= SEQUENCE { a BOOLEAN, ..., b Inner OPTIONAL, c OCTET STRING OPTIONAL }
+     Inner ::= SEQUENCE { x INTEGER (0..255), ..., y BOOLEAN OPTIONAL } *)
+  let inner := TSeq [(FReq, TInt U8 (Some 0%Z) (Some 255%Z) false); (FOpt, TBool)] 0 2 (Some 0) in
+  let outer := TSeq [(FReq, TBool); (FOpt, inner); (FOpt, TOctets None None false)] 0 3 (Some 0) in
+  let expected := VSeq [Some (VBool true); Some (VSeq [Some (VInt 7); Some (VBool true)]); Some (VOctets [1; 2])] in
+  let bytes := [192; 224; 176; 112; 16; 24; 0; 0; 96; 64; 32; 64] in
+  let r := r_of_src (src_of_bytes bytes 91) in
+  (* the complete encoding: both builds give the value and end at bit 91; the feature build logged 30 entries *)
+  (exists r', read_ty dev_mode outer r = Ok (expected, r') /\ s_pos (r_src r') = 91) /\
+  (exists rd', read_ty_d dev_mode outer (rd_of r) = Ok (expected, rd') /\ s_pos (r_src (erase rd')) = 91 /\
+               length (r_log rd') = 30%nat) /\
+  (* the encoding cut inside the last addition: both builds fail with EndOfStream; the error of the
+     feature build carries 30 log entries, the last ones being Result(Err), ReadWholeSubSlice, End *)
+  let rt := r_of_src (src_of_bytes bytes 82) in
+  read_ty dev_mode outer rt = Err E_END_OF_STREAM /\
+  read_ty_d dev_mode outer (rd_of rt) = Err E_END_OF_STREAM /\
+  option_map (fun l => (length l, skipn 27 l)) (log_on_error dev_mode outer (rd_of rt))
+    = Some (30%nat, [L_RESULT; L_SUB_SLICE; L_END]).
+Proof. vm_compute. repeat split; try (eexists; repeat split; reflexivity). Qed.
+
+Print Assumptions C19_erasure.
+Print Assumptions C19_erasure_history.
